@@ -17,12 +17,14 @@ import (
 
 // one source directory of a third-party format
 type impCase struct {
-	id     string
-	fm     format
-	files  map[string]string
-	class  string
-	desc   string
-	hazard string // input class of a known defect present in the sources ("" = none)
+	id          string
+	fm          format
+	files       map[string]string
+	class       string
+	desc        string
+	hazard      string   // input class of a known defect present in the sources ("" = none)
+	want        []string // the statements the source holds (nil = whatever the source reader returns)
+	cliValidate bool     // also run atlas migrate validate on the imported directory
 }
 
 func readAll(d migrate.Dir, useStmts bool) (names []string, stmts []string, err error) {
@@ -159,6 +161,17 @@ func runImport(w *out.W, tier, outDir string) {
 		impCase{fm: formats[2], class: "import-goose-block", desc: "goose StatementBegin/End trigger BEGIN END", hazard: "import-goose-statement-block",
 			files: map[string]string{"1_a.sql": "-- +goose Up\n-- +goose StatementBegin\nCREATE TRIGGER tr AFTER INSERT ON t BEGIN UPDATE t SET a = 1; DELETE FROM t; END;\n-- +goose StatementEnd\nCREATE TABLE t (a int);\n-- +goose Down\nDROP TABLE t;\n"}},
 	)
+	// 5. statements that end in a comment (the import strips the terminator and the formatter
+	// appends one: it must land outside the comment), all five source formats, first/middle/last
+	for _, fm := range tailReaders() {
+		for sh := range tailShapes {
+			for pos := 0; pos < 3; pos++ {
+				content, want := tailFile(fm, sh, pos)
+				cases = append(cases, impCase{fm: fm, class: "import-statement-tail", desc: "import " + tailDesc(fm, sh, pos),
+					files: map[string]string{fileName(fm, "1", "a"): content}, want: want, cliValidate: true, hazard: tailHazard(fm, sh)})
+			}
+		}
+	}
 	for ci := range cases {
 		c := &cases[ci]
 		c.id = fmt.Sprintf("i%d", ci)
@@ -186,6 +199,11 @@ func runImport(w *out.W, tier, outDir string) {
 			dstNames, dstStmts, derr = readAll(dd, true)
 			if derr == nil {
 				derr = migrate.Validate(dd)
+			}
+			if derr == nil && c.cliValidate {
+				if v := clirun.Run(tmp, nil, "migrate", "validate", "--dir", "file://"+dst); v.Exit != 0 {
+					derr = fmt.Errorf("atlas migrate validate exited %d: %s", v.Exit, trunc(strings.TrimSpace(v.Stderr+v.Stdout), 160))
+				}
 			}
 		}
 		sort.Strings(srcNames)
@@ -240,6 +258,9 @@ func runImport(w *out.W, tier, outDir string) {
 				cls = c.hazard
 			}
 			w.Violation(c.id, cls, fmt.Sprintf("%s: source has %d statements, imported directory %d (files %v); first difference at %d: source %s imported %s", c.desc, len(srcStmts), len(dstStmts), dstNames, i, wn, g))
+		case c.want != nil && c.hazard == "" && !reflect.DeepEqual(dstStmts, c.want):
+			w.Count("import:not-the-source-statements")
+			w.Violation(c.id, c.class+":source-reader", fmt.Sprintf("%s: the file holds the statements %q; the source reader returned %q and the imported directory reads back %q", c.desc, c.want, srcStmts, dstStmts))
 		default:
 			w.Count("import:ok")
 			if len(c.files) >= 2 || strings.ContainsAny(strings.Join(srcStmts, ""), "'-/") {
